@@ -790,6 +790,8 @@ impl DbInner {
 		);
 		queue.commits.push_back(commit);
 		queue.bytes += bytes;
+		#[cfg(pdb_verif)]
+		crate::verif::event("commit", record_id, bytes as u64);
 		self.log_worker_wait.signal();
 		Ok(())
 	}
@@ -893,6 +895,8 @@ impl DbInner {
 					);
 					self.commit_queue_full_cv.notify_all();
 				}
+				#[cfg(pdb_verif)]
+				crate::verif::event("pop", commit.id, commit.bytes as u64);
 				Some(commit)
 			} else {
 				None
@@ -1057,6 +1061,8 @@ impl DbInner {
 				for (c, iterset) in commit.changeset.btree_indexed.iter_mut() {
 					iterset.clean_overlay(&mut overlay[*c as usize].btree_indexed, commit.id);
 				}
+				#[cfg(pdb_verif)]
+				crate::verif::event("clean", commit.id, record_id);
 			}
 
 			if reindex {
@@ -1375,6 +1381,8 @@ impl DbInner {
 		if let Some((record_id, cleared, bytes)) = cleared {
 			// Every table write of the record is done, its log overlay entries are still there.
 			#[cfg(pdb_verif)]
+			crate::verif::event("enact", record_id, 0);
+			#[cfg(pdb_verif)]
 			crate::verif::yield_point("enact_logs.before_end_read");
 			self.log.end_read(cleared, record_id);
 			{
@@ -1446,6 +1454,8 @@ impl DbInner {
 		} else {
 			false
 		};
+		#[cfg(pdb_verif)]
+		crate::verif::event("cleanlogs", 0, 0);
 		self.cleanup_queue_wait.signal();
 		Ok(result)
 	}
